@@ -123,8 +123,15 @@ pub fn point(kind: PointKind, latency: u64) {
 }
 
 /// H1 callback installed into grass_compiler::verif.
-pub fn hook_point(_site: &'static str) {
-    point(PointKind::Hook, 0);
+pub fn hook_point(site: &'static str) {
+    if site == "interner" {
+        // hot: fine-grained, consulted rarely
+        point(PointKind::Hook, 0);
+    } else {
+        // operations on the process-global counters are few and are exactly where a
+        // read-modify-write race would sit: treat them as coarse points
+        point(PointKind::Yield, 0);
+    }
 }
 
 #[derive(Clone, Debug, Default)]
